@@ -7,7 +7,8 @@ replayed on the real optimise_fun with `esr.fitting.test_all.minimize` scripted.
 the code returned (clauses name the failed postcondition / loop rule).
 Part 2 (exploration): real BFGS fits of linear-in-parameter Gaussian models against the closed-form WLS optimum;
 every real `minimize` call is recorded and the recorded loop is judged by the same OptJudge (trace validation)."""
-import itertools, json, os, random, threading
+import itertools, json, os, random, threading, time
+from concurrent.futures import ThreadPoolExecutor
 from harness import scratch, tlc, evidence, pool, optdrive
 
 PID = "C10"
@@ -36,13 +37,13 @@ def _emissions(quick):
     E = []
     # exhaustive complete behaviours
     E.append(("lin_all_len4", "lin", "Opt_emit.cfg", _consts("lin", 4, 2), {}, 4, 2, None))
-    E.append(("lin_all_len5_nconv3", "lin", "Opt_emit.cfg", _consts("lin", 5, 3, vals="{0,1,2,8,10}"), {}, 5, 3, 1500))
+    E.append(("lin_all_len5_nconv3", "lin", "Opt_emit.cfg", _consts("lin", 5, 3, vals="{0,1,2,8,10}"), {}, 5, 3, 1000))
     if not quick:
         E.append(("log1_all_len3", "log1", "Opt_emit.cfg", _consts("log1", 3, 2), {}, 3, 2, None))
         E.append(("log2_all_len2", "log2", "Opt_emit.cfg", _consts("log2", 2, 1, vals="{0,1,10}"), {}, 2, 1, None))
     # every transition of the loop's state machine from a representative history, with paddings (VIEW)
-    E.append(("log1_transitions", "log1", "Opt_view.cfg", _consts("log1", 4, 2, step=True), {}, 4, 2, 5000))
-    E.append(("log2_transitions", "log2", "Opt_view.cfg", _consts("log2", 4, 2, vals="{0,1,10}", step=True), {}, 4, 2, 7000))
+    E.append(("log1_transitions", "log1", "Opt_view.cfg", _consts("log1", 4, 2, step=True), {}, 4, 2, 4000))
+    E.append(("log2_transitions", "log2", "Opt_view.cfg", _consts("log2", 4, 2, vals="{0,1,10}", step=True), {}, 4, 2, 5000))
     # random long behaviours over the whole alphabet
     nsim = 400 if quick else 4000
     for mode in ("lin", "log1", "log2"):
@@ -109,7 +110,55 @@ def _run_pool(target, cases, s, tag, nproc, order_key=None):
     return res
 
 
+def _replay_one(path):
+    """re-run the single case of a replay file (scripted history or real fit) and judge it; no evidence file is written"""
+    case = json.load(open(path))["replay"]["case"]
+    s = scratch.make()
+    if "hist" in case:
+        c = dict(case, id=0)
+        o = _run_pool("harness.optdrive:replay_batch", [{k: v for k, v in c.items() if k != "ans"}], s, "rep", 1)[0]
+        if "raised" in o:
+            print("VIOLATION property=%s replay=%s\n  optimise_fun raised %s" % (PID, path, o["raised"]))
+            return 1
+        jc = {"id": 0, "kind": "script", "mode": c["mode"], "niter": c["niter"], "nconv": c["nconv"], "t05": T05, "t2": T2, "hist": c["hist"], "obs": o["obs"],
+              "flags": [{"name": "branches_called_with_signs_of_table", "ok": o["bad_branch"] == 0 and o["order"] == list(range(1, len(c["signtable"]) + 1))}]}
+    else:
+        c = dict(case, id=0)
+        o = _run_pool("harness.optdrive:fit_batch", [c], s, "fit", 1)[0]
+        if "raised" in o:
+            print("VIOLATION property=%s replay=%s\n  optimise_fun raised %s" % (PID, path, o["raised"]))
+            return 1
+        jc = _fit_judge_case(0, c, o)
+    _, failed = tlc.judge("OptJudge", [jc])
+    if failed:
+        print("VIOLATION property=%s replay=%s\n  clauses %s\n  observed %s" % (PID, path, failed[0], {k: v for k, v in o.items() if k not in ("funs", "hist")}))
+        return 1
+    print("PASS %s replay: the case of %s is accepted now (%s)" % (PID, path, o.get("obs")))
+    return 0
+
+
+def _fit_judge_case(i, c, o):
+    chi2 = o["chi2"]
+    if c["kind"] == "free":
+        return _flag_case(i, [{"name": "parameter_free_evaluated_directly", "ok": abs(chi2 - o["direct"]) <= 1e-9 * max(1.0, abs(o["direct"]))},
+                              {"name": "parameter_free_params_are_zero", "ok": all(v == 0.0 for v in o["params"]) and o["ncalls"] == 0}])
+    if c["kind"] == "nan":
+        return _flag_case(i, [{"name": "nan_function_is_plus_infinity", "ok": chi2 == float("inf")},
+                              {"name": "nan_function_not_optimised", "ok": o["ncalls"] == 0 and all(v == 0.0 for v in o["params"])}])
+    ref, at = o["ref"], o["at_params"]
+    flags = [{"name": "nll_is_wls_minimum", "ok": abs(chi2 - ref) <= max(1e-3, 1e-6 * abs(ref))},
+             {"name": "nll_at_returned_parameters", "ok": abs(at - chi2) <= 1e-9 * max(1.0, abs(chi2))},
+             {"name": "branches_called_with_signs_of_table", "ok": bool(o["order_ok"])},
+             {"name": "starts_inside_search_box", "ok": bool(o.get("starts_in_box", False))}]
+    if o["order_ok"] and not o["borderline"]:
+        return {"id": i, "kind": "trace", "mode": c["mode"], "niter": c["niter_n"], "nconv": c["nconv_n"],
+                "t05": optdrive.UNIT_TRACE // 2, "t2": 2 * optdrive.UNIT_TRACE, "hist": o["hist"], "obs": o["obs"], "flags": flags}
+    return _flag_case(i, flags)
+
+
 def run(tier, replay=None):
+    if replay:
+        return _replay_one(replay)
     r = evidence.Run(PID, tier, "model_checking")
     s = scratch.make()
     quick = tier == "quick"
@@ -127,32 +176,46 @@ def run(tier, replay=None):
     th = threading.Thread(target=_fits)
     th.start()
 
-    # ---- 1. the loop, every result sequence: postconditions as invariants
-    for mode in ("lin", "log1", "log2"):
-        res = tlc.must(tlc.run("Opt", "Opt_mc.cfg", constants=_consts(mode, 4, 2, infmax=2), workers=3), "Opt " + mode)
-        r.add_tlc(res, "loop_%s_niter4_nconv2_inf2" % mode)
-        for v in res["violated"]:
-            r.violation("model:%s:%s" % (mode, v), "Opt.tla (%s): the transcription of the loop violates %s: the code's logic breaks a postcondition of C10\n%s"
-                        % (mode, v, res["out"][-1500:]), {"mode": mode, "invariant": v})
+    # ---- 1. the loop, every result sequence: postconditions as invariants;  2. behaviours for the replay.
+    # TLC runs are independent: three at a time (one worker each; two for the largest).
+    tasks = []
+    for mode in ("log2", "log1", "lin"):
+        vals = "{0,1,2,8,10}" if (quick and mode == "log2") else VALS
+        tasks.append(("mc", "loop_%s_niter4_nconv2_inf2" % mode, mode, "Opt_mc.cfg", _consts(mode, 4, 2, infmax=2, vals=vals),
+                      {"workers": 2 if mode == "log2" else 1}, None))
     if not quick:
-        for mode, vals in (("lin", VALS), ("log1", VALS), ("log2", "{0,1,2,8,10}")):
-            res = tlc.must(tlc.run("Opt", "Opt_mc.cfg", constants=_consts(mode, 6, 3, infmax=3, vals=vals), workers=3, heap="6g"), "Opt6 " + mode)
-            r.add_tlc(res, "loop_%s_niter6_nconv3_inf3" % mode)
-            for v in res["violated"]:
-                r.violation("model:%s:%s" % (mode, v), "Opt.tla (%s, Niter 6): %s violated\n%s" % (mode, v, res["out"][-1500:]), {"mode": mode, "invariant": v})
+        for mode, vals in (("log2", "{0,1,2,8,10}"), ("log1", VALS), ("lin", VALS)):
+            tasks.append(("mc", "loop_%s_niter6_nconv3_inf3" % mode, mode, "Opt_mc.cfg", _consts(mode, 6, 3, infmax=3, vals=vals),
+                          {"workers": 2 if mode == "log2" else 1, "heap": "6g"}, None))
     # negative control of the model: without the re-creation of mult_arr per iteration the sign array of the best
     # result is overwritten by later iterations -- TLC must see it (otherwise the alias bit of the model is dead)
-    neg = tlc.run("Opt", "Opt_mc.cfg", constants=_consts("log2", 4, 2, infmax=2, variant="norebind"), workers=3)
-    if "SignArrayOfBest" not in neg["violated"]:
-        raise tlc.TLCError("negative control: Opt.tla without Rebind does not violate SignArrayOfBest\n" + neg["out"][-1500:])
-
-    # ---- 2. behaviours of the model -> scripted replay on the real optimise_fun
-    scripted, nbeh = [], {}
+    tasks.append(("neg", "negative_control_norebind", "log2", "Opt_mc.cfg", _consts("log2", 4, 2, infmax=2, vals="{0,1,10}", variant="norebind"), {"workers": 1}, None))
     for part, mode, cfg, consts, kw, niter, nconv, cap in _emissions(quick):
-        res = tlc.must(tlc.run("Opt", cfg, constants=consts, workers=1 if "simulate" in kw else 3, **kw), "emit " + part)
-        r.add_tlc(res, "emit_" + part)
+        tasks.append(("emit", part, mode, cfg, consts, dict(kw, workers=1), (niter, nconv, cap)))
+
+    def _tlc(t):
+        return tlc.run("Opt", t[3], constants=t[4], **t[5])
+    t0 = time.time()
+    with ThreadPoolExecutor(max_workers=3) as ex:
+        results = list(ex.map(_tlc, tasks))
+    phases = {"tlc_model_and_emission_s": round(time.time() - t0, 1)}
+
+    scripted, nbeh = [], {}
+    for t, res in zip(tasks, results):
+        kind, part, mode = t[0], t[1], t[2]
+        if kind == "neg":
+            if "SignArrayOfBest" not in res["violated"]:
+                raise tlc.TLCError("negative control: Opt.tla without Rebind does not violate SignArrayOfBest\n" + res["out"][-1500:])
+            continue
+        tlc.must(res, part)
+        r.add_tlc(res, part if kind == "mc" else "emit_" + part)
         for v in res["violated"]:
-            r.violation("model:%s:%s" % (part, v), "Opt.tla emission %s: %s violated\n%s" % (part, v, res["out"][-1500:]), {"part": part})
+            r.violation("model:%s:%s" % (mode if kind == "mc" else part, v),
+                        "Opt.tla (%s): the transcription of the loop violates %s: the code's logic breaks a postcondition of C10\n%s"
+                        % (part, v, res["out"][-1500:]), {"part": part, "mode": mode, "invariant": v})
+        if kind != "emit":
+            continue
+        niter, nconv, cap = t[6]
         seen, recs = set(), []
         for j in res["json"]:
             if isinstance(j, dict) and "hist" in j:
@@ -170,9 +233,13 @@ def run(tier, replay=None):
             for fstr, lo in optdrive.CONFIGS[mode]:
                 scripted.append({"id": len(scripted), "part": part, "mode": mode, "fstr": fstr, "log_opt": lo, "niter": niter, "nconv": nconv,
                                  "hist": j["hist"], "signtable": j["signtable"], "ans": j["ans"]})
-    obs = _run_pool("harness.optdrive:replay_batch", [{k: v for k, v in c.items() if k != "ans"} for c in scripted], s, "rep", 3)
-
+    t0 = time.time()
+    obs = _run_pool("harness.optdrive:replay_batch", [{k: v for k, v in c.items() if k != "ans"} for c in scripted], s, "rep",
+                    3 if th.is_alive() else 6)          # at most 6 worker processes at any time
+    phases["scripted_replay_s"] = round(time.time() - t0, 1)
+    t0 = time.time()
     th.join()
+    phases["waiting_for_real_fits_s"] = round(time.time() - t0, 1)
     if "err" in fit_box:
         raise fit_box["err"]
     fobs = fit_box["res"]
@@ -197,32 +264,24 @@ def run(tier, replay=None):
         if "raised" in o:
             r.violation("fit:raised:%s" % o["raised"].split(":")[0], "optimise_fun raised %s on %s" % (o["raised"], c), {"case": c})
             continue
-        chi2 = o["chi2"]
-        if c["kind"] == "free":
-            flags = [{"name": "parameter_free_evaluated_directly", "ok": abs(chi2 - o["direct"]) <= 1e-9 * max(1.0, abs(o["direct"]))},
-                     {"name": "parameter_free_params_are_zero", "ok": all(v == 0.0 for v in o["params"]) and o["ncalls"] == 0}]
-            cases.append(_flag_case(len(cases), flags))
-        elif c["kind"] == "nan":
-            flags = [{"name": "nan_function_is_plus_infinity", "ok": chi2 == float("inf")},
-                     {"name": "nan_function_not_optimised", "ok": o["ncalls"] == 0 and all(v == 0.0 for v in o["params"])}]
-            cases.append(_flag_case(len(cases), flags))
-        else:
+        jc = _fit_judge_case(len(cases), c, o)
+        cases.append(jc)
+        if c["kind"] == "fit":
             nfit += 1
-            ref, at = o["ref"], o["at_params"]
-            flags = [{"name": "nll_is_wls_minimum", "ok": abs(chi2 - ref) <= max(1e-3, 1e-6 * abs(ref))},
-                     {"name": "nll_at_returned_parameters", "ok": abs(at - chi2) <= 1e-9 * max(1.0, abs(chi2))},
-                     {"name": "branches_called_with_signs_of_table", "ok": bool(o["order_ok"])},
-                     {"name": "starts_inside_search_box", "ok": bool(o.get("starts_in_box", False))}]
-            if o["order_ok"] and not o["borderline"]:
-                ntrace += 1
-                cases.append({"id": len(cases), "kind": "trace", "mode": c["mode"], "niter": c["niter_n"], "nconv": c["nconv_n"],
-                              "t05": optdrive.UNIT_TRACE // 2, "t2": 2 * optdrive.UNIT_TRACE, "hist": o["hist"], "obs": o["obs"], "flags": flags})
-            else:
-                nborder += 1 if o.get("borderline") else 0
-                cases.append(_flag_case(len(cases), flags))
+            ntrace += 1 if jc["kind"] == "trace" else 0
+            nborder += 1 if o.get("borderline") else 0
         meta.append((c["kind"], c, o))
-    jres, failed = tlc.judge("OptJudge", cases, heap="6g", timeout=3000)
+    # binding self-test: corrupted copies of runs that agree with the model must be rejected by the judge with the
+    # clause of the corrupted field; an accepted corruption is a machinery failure (exit 2)
+    selftest = _corruptions(cases, meta, len(cases), rng)
+    jres, failed = tlc.judge("OptJudge", cases + [c for c, _ in selftest], heap="6g", timeout=3000)
     r.add_tlc(jres, "judge")
+    for c, want in selftest:
+        if want not in failed.get(c["id"], []):
+            raise tlc.TLCError("binding self-test: corrupted observation accepted (expected clause %s, got %s): %s" % (want, failed.get(c["id"]), c))
+    failed = {i: cl for i, cl in failed.items() if i < len(meta)}
+    r.cov["parts"].setdefault("judge", {})["selftest_corruptions_rejected"] = len(selftest)
+    r.cov["parts"]["phases_wall"] = phases           # information only; no verdict depends on time
 
     # direct comparison with the answer the model printed (value and iterations must be the model's whenever the
     # judge accepts; a different winner that the judge accepts is a tie, which the property leaves free)
@@ -306,6 +365,30 @@ def run(tier, replay=None):
                       "P5: closed-form WLS by lstsq on the weighted design matrix of the harness; tolerance max(1e-3, 1e-6 |NLL|)",
                       "convergence of the real BFGS to the optimum is observed on the listed fits (exploration), not proved"]
     return r.finish(exhaustive=False)
+
+
+def _corruptions(cases, meta, base, rng):
+    """[(corrupted case, clause that must fail)] from scripted/recorded runs that agree with the model's printed answer"""
+    out = []
+    good = [i for i, (k, c, o) in enumerate(meta) if k == "script" and o["obs"]["value"] != INF
+            and all(c["ans"][f] == o["obs"][f] for f in ("value", "n", "it", "br", "signs", "back")) and o["obs"]["padok"]]
+    for i in rng.sample(good, min(40, len(good))):
+        c0 = cases[i]
+        o0 = c0["obs"]
+        muts = [("returned_value_is_minimum", dict(o0, value=o0["value"] + 1)),
+                ("zero_padding", dict(o0, padok=False))]
+        why = meta[i][1]["ans"]["why"]
+        stop = {"conv": "stops_when_converged", "inf": "stops_after_50_inf", "niter": "stops_at_niter"}[why]
+        muts.append((stop, dict(o0, n=o0["n"] - 1)))
+        other = [(it, br) for it in range(1, o0["n"] + 1) for br in range(1, len(c0["hist"][0]) + 1) if c0["hist"][it - 1][br - 1] != o0["value"]]
+        if other:
+            muts.append(("parameters_of_winner", dict(o0, it=other[0][0], br=other[0][1])))
+        if o0["signs"]:
+            muts.append(("signs_of_winner", dict(o0, signs=[-o0["signs"][0]] + o0["signs"][1:])))
+        muts.append(("signs_of_winner", dict(o0, back="id" if o0["back"] == "pow10" else "pow10")))
+        for want, ob in muts:
+            out.append((dict(c0, id=base + len(out), obs=ob), want))
+    return out
 
 
 def _flag_case(i, flags):
